@@ -950,9 +950,12 @@ class Model(Object):
 
         for group in group_list:
             # make sure the group is in the model
-            if group.id not in self.groups:
+            group_id = group if isinstance(group, str) else group.id
+            if group_id not in self.groups:
                 logger.warning(f"{group!r} not in {self!r}. Ignored.")
             else:
+                if isinstance(group, str):
+                    group = self.groups.get_by_id(group_id)
                 self.groups.remove(group)
                 group._model = None
 
